@@ -276,3 +276,19 @@ prop("C13",
      rule="120 in-domain databases (as C01) + 120 databases with arbitrary text (NUL, C0 controls, U+FFFE, 0xFF, lone surrogates as invalid UTF-8); distinct = distinct JSON; non-trivial = at least one lap or vehicle",
      assumptions=["'independent strict parser' = the Coq reader Xml/Lex.v, written from the XML 1.0 grammar subset, independent of encoding/xml"],
      note=LT_NOTE)
+
+prop("C20",
+     axioms="none",
+     design_ref="DESIGN.md section 5 C20",
+     technique="Rocq proof of the precedence rule for all sections/flag sets/defaults (top-level options) + exhaustive computation on the start table + correspondence against the built binary (effective options read from its own -vv trace, output bytes vs library pipeline, exit status)",
+     text="C20_precedence: for every config section, every list of given flags (any order, any values incl. empty) and every default, loadConfig's model gives flag > config > default for "
+          "every option whose config key is the top-level key named like its flag (all convert and gopro convert options, tolerance); the four start-line options in the nested table are "
+          "covered by exhaustive evaluation over present/absent x flag sets (after the repair D20).  Tied to the code by running the built tracktools binary: each option independently flag "
+          "given/not x config key present/not, effective values read from the binary's own 'Loaded config' trace and compared with the model; for convert the bytes written (file or stdout, "
+          "file or stdin) must equal the library pipeline run with the rule's values and every failure (unknown decoder/encoder, missing input, undecodable data) must exit non-zero with a message.",
+     rule="one case = one invocation: convert with 8 options each in one of 4 source states (110 sampled, 70% forced to valid decoder/encoder so the pipeline runs; 6% undecodable data, 5% missing "
+          "input, 30% stdout, 20% stdin), gopro laptimes with 5 options (60 sampled of 1024), gopro convert with 2 flags (20); distinct = distinct JSON; all non-trivial",
+     assumptions=["cobra/viper/mapstructure/pflag are not modelled beyond the key-matching rule; the laptimes filter clause (readings within tolerance of the start line) is not exercised end to end "
+                  "(it composes C08's decoder with C17's detector and geodesic.Direct)"],
+     note="Trusted: Coq kernel + vm_compute; correspondence harness (binary runner, TOML writer, trace parser, library pipeline oracle). Modelled not verified: viper.GetStringMap key lower-casing, "
+          "mapstructure field matching, cobra flag parsing.")
